@@ -305,6 +305,7 @@ impl OpSource for GenOps {
                     // names are kept apart (both sessions share one importer)
                     g.set_id_offset(self.gen_p.next_id_value());
                     g.module_tag = "c".into();
+                    g.name_tag = self.gen_p.name_tag.clone();
                     self.gen_c = Some(g);
                     return Some(Op::Fork);
                 }
